@@ -172,6 +172,34 @@ def main():
         out["second"] = sec
         state.clear()
         state.update(first_state)
+    if cfg.get("repeat"):
+        # history: the very same call again in this process (same faults): it must behave exactly like the first one
+        first_state = dict(state)
+        n_eff = len(effects)
+        state.clear()
+        subprocess.run = fake_run
+        tempfile.mkdtemp = fake_mkdtemp
+        pathlib.Path.write_text = fake_write_text
+        pathlib.Path.mkdir = fake_mkdir
+        try:
+            runpy.run_path(script_path, run_name="__main__")
+            state.setdefault("outcome", "target-not-called")
+        except Done:
+            pass
+        except BaseException as exc:  # noqa: BLE001
+            state.setdefault("outcome", "script-error")
+        finally:
+            subprocess.run = real_run
+            tempfile.mkdtemp = real_mkdtemp
+            pathlib.Path.write_text = real_write_text
+            pathlib.Path.mkdir = real_mkdir
+        out["repeat"] = {"outcome": state.get("outcome"), "exc_type": state.get("exc_type"), "exc_msg": state.get("exc_msg"),
+                         "effects": [e[:2] for e in effects[n_eff:]],
+                         "first_outcome": first_state.get("outcome"), "first_exc_type": first_state.get("exc_type"),
+                         "first_effects": [e[:2] for e in effects[:n_eff]],
+                         "same_return": state.get("ret") == first_state.get("ret")}
+        state.clear()
+        state.update(first_state)
     out.update(state)
     ret = state.get("ret")
     out["ret_is_str"] = isinstance(ret, str)
